@@ -17,6 +17,7 @@ from . import builtins as B
 Z3_TIMEOUT_MS = int(os.environ.get("PYVC_Z3_TIMEOUT_MS", "20000"))
 CVC5_TIMEOUT_MS = int(os.environ.get("PYVC_CVC5_TIMEOUT_MS", "40000"))
 
+MAX_OPEN_PER_UNIT = int(os.environ.get("PYVC_MAX_OPEN_PER_UNIT", "3"))
 IMPLICIT_EXC = (KeyError, IndexError, AttributeError, UnboundLocalError, NameError, TypeError,
                 ZeroDivisionError, StopIteration, ValueError, AssertionError)
 
@@ -179,8 +180,16 @@ def run_unit(unit):
         res["assumed"] = sorted(eng.assumed)
         res["bounded"] = bool(eng.bounded_used)
         seen = set()
+        n_bad = 0
         for (label, pc, goal, trace, tags) in eng.obligations:
+            if n_bad >= MAX_OPEN_PER_UNIT:
+                # the unit is already failed / undecided: the remaining obligations cannot change its verdict
+                res["obligations"].append({"label": label, "verdict": "unknown", "solver": "skipped", "ms": 0, "path": "/".join(trace[-12:]),
+                                           "tags": list(tags), "reason": f"not attempted: {n_bad} obligations of this unit are already open"})
+                continue
             verdict, solver, ms, model, reason = solve(pc, goal, axioms)
+            if verdict != "discharged":
+                n_bad += 1
             ob = {"label": label, "verdict": verdict, "solver": solver, "ms": ms,
                   "path": "/".join(trace[-12:]), "tags": list(tags)}
             if reason:
